@@ -1,0 +1,19 @@
+//go:build verif
+// +build verif
+
+package gf2p16
+
+// Verification hooks (build tag verif): exports of the portable Go
+// kernels so that they can be driven on any machine.
+
+// VerifMulByteSliceLEGeneric exports mulByteSliceLEGeneric.
+func VerifMulByteSliceLEGeneric(c T, in, out []byte) { mulByteSliceLEGeneric(c, in, out) }
+
+// VerifMulAndAddByteSliceLEGeneric exports mulAndAddByteSliceLEGeneric.
+func VerifMulAndAddByteSliceLEGeneric(c T, in, out []byte) { mulAndAddByteSliceLEGeneric(c, in, out) }
+
+// VerifMulSliceGeneric exports mulSliceGeneric.
+func VerifMulSliceGeneric(c T, in, out []T) { mulSliceGeneric(c, in, out) }
+
+// VerifMulAndAddSliceGeneric exports mulAndAddSliceGeneric.
+func VerifMulAndAddSliceGeneric(c T, in, out []T) { mulAndAddSliceGeneric(c, in, out) }
